@@ -268,7 +268,10 @@ class LocalBytesIO:
         self.closed = False
         self.nreads = 0
 
+    managed = False
+
     def kvc_enter(self):
+        self.managed = True
         return self
 
     def kvc_exit(self):
@@ -376,6 +379,7 @@ class Closing:
         self.kvc_symbolic = True
 
     def kvc_enter(self):
+        self.inner.managed = True
         return self.inner
 
     def kvc_exit(self):
